@@ -218,10 +218,12 @@ def oracle(case, out, clauses=('c02', 'c03')):
 
 
 GEN = []
-LEAN_TARGETS = ['OtelVerif.Props.C02Reader']
+LEAN_TARGETS = ['OtelVerif.Props.C02Reader', 'OtelVerif.Props.C02ReaderLive']
 THEOREMS_C02 = ['Otel.C02Reader.' + t for t in ('reader_no_export_after_shutdown', 'reader_flush_complete_partial',
                                                   'reader_flush_complete_witness', 'reader_flush_true_needs_exporter_flush')] + \
                ['Otel.Reader.reachable_inv', 'Otel.Reader.inv_astep']
+THEOREMS_C02_LIVE = ['Otel.C02Reader.' + t for t in ('reader_flush_served_within', 'reader_worker_terminates_within', 'reader_join_enabled_when_done')] + [
+    'Otel.Reader.served_of_wcount', 'Otel.Reader.done_of_wcount']
 THEOREMS_C03 = ['Otel.C02Reader.export_not_reentrant_reader', 'Otel.Reader.reachable_inv', 'Otel.Reader.inv_astep']
 HARNESSES = [H_PMR]
 
